@@ -7,6 +7,7 @@
 package main
 
 import (
+	"sync"
 	"bufio"
 	"bytes"
 	"encoding/json"
@@ -133,12 +134,24 @@ func run(op *proto.Op) (res *proto.Res) {
 
 var ops = map[string]func(*proto.Op, *proto.Res) error{}
 
+var (
+	imgMu        sync.Mutex
+	timerFlushes int64 // flushes seen so far (guarded by imgMu)
+)
+
 func init() {
 	ops["cfg"] = func(op *proto.Op, res *proto.Res) error {
 		storage.VerifNoAutoFlush = op.N != 0
 		storage.VerifCacheCap = op.M
 		if op.S == "count-misses" {
 			storage.VerifFetchMiss = func(uint64) { fetchMisses++ }
+		}
+		if op.S == "timer-images" {
+			// the real flush timer runs; an image of the data directory is
+			// never taken while a flush is writing (that state is C04's
+			// business): the flush brackets and the image op share one mutex
+			storage.VerifFlushBegin = func() { imgMu.Lock(); timerFlushes++ }
+			storage.VerifFlushEnd = func() { imgMu.Unlock() }
 		}
 		return nil
 	}
@@ -195,7 +208,12 @@ func init() {
 		res.Hdr = header()
 		return nil
 	}
-	ops["image"] = func(op *proto.Op, res *proto.Res) error { return copyTree("data", op.Dir) }
+	ops["image"] = func(op *proto.Op, res *proto.Res) error {
+		imgMu.Lock()
+		defer imgMu.Unlock()
+		res.N = timerFlushes
+		return copyTree("data", op.Dir)
+	}
 	ops["chdir"] = func(op *proto.Op, res *proto.Res) error { return os.Chdir(op.Dir) }
 	ops["restore"] = func(op *proto.Op, res *proto.Res) error {
 		// replace ./data with a copy of Dir
